@@ -255,10 +255,7 @@ func (e *kvElection) handleReconnect() {
 		e.cfg.Metrics.SetConnectionStatus(1, e.getMetricsLabels())
 	}
 
-	if e.disconnectHandler.timer != nil {
-		e.disconnectHandler.timer.Stop()
-		e.disconnectHandler.timer = nil
-	}
+	e.disconnectHandler.stop()
 
 	if !e.isLeader.Load() {
 		return
